@@ -77,3 +77,14 @@ Proof.
   exists col. split; [exact Hc|]. split; [reflexivity|]. exact (sig_column_spec d o fs ts id _ _ Hc).
 Qed.
 Print Assumptions C08_excerpt_signature_block_partial.
+
+(* (3) re-import, first half: the text of an excerpt is read back by the importer's line reader as exactly the rows of
+       the excerpt (preamble, signature block, body, terminators), cell for cell *)
+From KV Require Import LineReaderProofs ReadBackProofs.
+Theorem C08_excerpt_read_back_partial : forall bad d o rows, export_rows d o = Ok rows ->
+  (forall r c, In r rows -> In c r -> cell_ok c = true) ->
+  exists text, dumps d o = Ok text /\
+    load_file bad text = match run_rows bad init_state (filter (fun r => negb (empty_row r)) rows) with
+                         | IOk s => IOk (i_doc s) | IErr e => IErr e | IOut => IOut end.
+Proof. exact dumps_then_load. Qed.
+Print Assumptions C08_excerpt_read_back_partial.
